@@ -2,6 +2,7 @@ package adapters
 
 import (
 	"fmt"
+	"math/rand"
 
 	. "verifh/simsched"
 
@@ -26,6 +27,12 @@ func bagWrite(_ distsys.ArchetypeInterface, _ []tla.Value, c, v tla.Value) (tla.
 	return BagAdd(c, v), nil
 }
 
+func init() {
+	Register(Factory{Name: "locksvc", Tags: []string{"c02", "c15"}, New: func(seed int64, exact bool, rng *rand.Rand) *Sim {
+		return Locksvc(seed, 1+rng.Intn(5))
+	}})
+}
+
 // Locksvc builds the lock service with numClients clients over the spec's bag network.
 func Locksvc(seed int64, numClients int) *Sim {
 	st := NewStore()
@@ -46,7 +53,7 @@ func Locksvc(seed int64, numClients int) *Sim {
 	}
 	sim := &Sim{Name: "locksvc", Sched: s, SpecFiles: []string{repoPath("systems/locksvc/locksvc.tla")}, Module: "locksvc",
 		Constants: []string{fmt.Sprintf("NumClients = %d", numClients)}, Invariants: []string{"Safety"},
-		Params: map[string]any{"NumClients": numClients}}
+		Params: map[string]any{"NumClients": numClients}, MaxSteps: 2000}
 
 	grant := N(3)
 	grantsSeen := make([]int, numClients+1) // grants delivered into network[c] so far
